@@ -26,6 +26,7 @@ def contract(expression: Expression) -> Expression:
         and isinstance(expression.denominator, Probability)
         and not expression.numerator.parents
         and not expression.denominator.parents
+        and expression.numerator._new(expression.denominator.distribution) == expression.denominator
         and set(expression.denominator.children) < set(expression.numerator.children)
     ):
         return expression
